@@ -326,8 +326,14 @@ fn wide_suite<S: ShortGroupSignatureScheme>(em: &mut Emitter, rng: &mut Rng, sui
             }
         }
         // proof of knowledge: every fourth position revealed, plus the last one in one of two runs
-        for run in 0..2 {
-            let revealed = |i: usize| i % 4 == 1 || (run == 1 && i == n - 1);
+        for run in 0..5 {
+            // run 2: nothing revealed; run 3: only the last message; run 4: only message 5 (or 0)
+            let revealed = |i: usize| match run {
+                2 => false,
+                3 => i == n - 1,
+                4 => i == 5.min(n - 1),
+                _ => i % 4 == 1 || (run == 1 && i == n - 1),
+            };
             let pm: Vec<ProofMessage<Scalar>> = (0..n).map(|i| if revealed(i) { ProofMessage::Revealed(msgs[i]) } else { ProofMessage::Hidden(HiddenMessage::ProofSpecificBlinding(msgs[i])) }).collect();
             let rvl: Vec<(usize, Scalar)> = (0..n).filter(|i| revealed(*i)).map(|i| (i, msgs[i])).collect();
             let pok = match call(|| S::commit_signature_pok(sig.clone(), &pk, &pm, rng.chacha())) {
@@ -348,7 +354,10 @@ fn wide_suite<S: ShortGroupSignatureScheme>(em: &mut Emitter, rng: &mut Rng, sui
                 em.violation("pok-rejected", format!("{}: honest proof of knowledge over {} messages rejected", suite, n), replay.clone());
                 continue;
             }
-            for k in [0usize, rvl.len() / 2, rvl.len() - 1] {
+            for k in [0usize, rvl.len() / 2, rvl.len().saturating_sub(1)] {
+                if rvl.is_empty() {
+                    break;
+                }
                 let mut r2 = rvl.clone();
                 r2[k].1 += Scalar::ONE;
                 if matches!(call_total(|| S::verify_signature_pok(&r2, &pk, &proof, nonce, c)), Out::Ok(true)) {
